@@ -29,4 +29,4 @@ Section SurrogateGuardEquiv.
   Qed.
 End SurrogateGuardEquiv.
 
-Print Assumptions train_guard_gen_eq_model.
+(* Print Assumptions of the theorems above is run by harness/core.py translated_obligations (qualified names, whitelist) *)
